@@ -37,6 +37,8 @@ def mk_raw(v, kind):
         return np.float32(v)
     if kind == "arr0d":
         return np.array(float(v))
+    if kind in ("npf16", "npu8", "npi8", "npi16", "npu16"):
+        return {"npf16": np.float16, "npu8": np.uint8, "npi8": np.int8, "npi16": np.int16, "npu16": np.uint16}[kind](v)
     raise ValueError(kind)
 
 
@@ -263,6 +265,10 @@ class Builder:
                 P.maximize(obj)
         for c in rec.get("constraints", []):
             P.subject_to(self.rel(c))
+        # bounds assigned on the Variable objects after the model was written
+        for nm, (lb, ub) in (rec.get("bound_edits") or {}).items():
+            v = self.variables([nm])[0]
+            v.lb, v.ub = lb, ub
         return P
 
 
